@@ -88,7 +88,14 @@ fn random_illtyped(src: &mut Src, obs: &mut Obs) -> Res {
     let nonsing = |src: &mut Src| -> Query {
         let mut q = Query { abs: src.chance(1, 3), segs: gen_segments(src, &Lim { filter_depth: 1, fn_depth: 0, logic_depth: 1 }, 3) };
         if q.is_singular() {
-            q.segs.push(Seg { desc: src.bool(), sels: vec![Sel::Wild], dot: true });
+            if src.bool() {
+                q.segs.push(Seg { desc: src.bool(), sels: vec![Sel::Wild], dot: true });
+            } else {
+                // a slice that selects at most one element is still not a singular query
+                let i = src.range(-3, 6);
+                let step = *src.pick(&[None, Some(1)]);
+                q.segs.push(Seg { desc: false, sels: vec![Sel::Slice(Some(i), Some(i + 1), step, false)], dot: false });
+            }
         }
         q
     };
@@ -260,7 +267,7 @@ fn targeted(obs: &mut Obs, _thorough: bool) -> Res {
     let filters = [
         "1", "'a'", "true", "null", "1.5", "@.a==", "==1", "@.a==1==1", "@.a===1", "@.a=1", "@.a<>1", "@.a=>1", "@.a and @.b", "@.a or @.b", "not @.a", "@.a & @.b", "@.a | @.b", "@.a &&", "|| @.a",
         "@.a && || @.b", "!", "!!@.a", "(@.a", "@.a)", "()", "(@.a)==1", "!@.a==1", "@.*==1", "1==@.*", "@..a==1", "@[0,1]==1", "@[1:2]==1", "@[?@.b]==1", "@.a==@.*", "$.*==1", "$..a==$..a",
-        "length(@)", "count(@.*)", "value(@.a)", "!length(@)", "length(@.*)<3", "length(@..a)==1", "length(@[0,1])==1", "length(@[1:])==1", "length(@[?@.a])==1", "length()==1", "length(@,@)==1",
+        "length(@)", "count(@.*)", "value(@.a)", "!length(@)", "length(@.*)<3", "length(@[0:1])==1", "length(@[1:2:1])==1", "match(@[0:1],'a')", "search(@.k[5:6],'a')", "@[0:1]==1", "1==$[2:3]", "@.a[-1:]==1", "length(@..a)==1", "length(@[0,1])==1", "length(@[1:])==1", "length(@[?@.a])==1", "length()==1", "length(@,@)==1",
         "length(@.a==1)==1", "length(match(@,'a'))==1", "count(1)==1", "count('a')==1", "count(@.a==1)==1", "count()==1", "count(@,@)==1", "count(length(@))==1", "count(true)==1",
         "value(1)==1", "value(@.a==1)==1", "value()==1", "value(length(@))==1", "match(@)", "match()", "match(@,'a','b')", "match(@.*,'a')", "match(@,@.*)", "match(@.a==1,'a')",
         "match(@,'a')==true", "match(@,'a')==1", "1==match(@,'a')", "search(@)", "search(@.*,'a')", "search(@,'a')==true", "match(count(@.*),'a')==1", "match(@..a,'a')", "search(@,@[0,1])",
